@@ -353,6 +353,11 @@ namespace {
    {
       auto o = Value::object();
       std::size_t n = sj.size();
+      // the newest element first (the previous observation ended with refused positions), then the positions in descending order
+      o.set("first", n == 0 ? guarded(sj, [&] { return sj.at(0); }) : guarded(sj, [&] { return sj.at(n - 1); }));
+      auto atrev = Value::array();
+      for (std::size_t i = n + 3; i-- > 0; ) atrev.push(guarded(sj, [&] { return sj.at(i); }));
+      o.set("atrev", atrev);
       o.set("size", static_cast<long>(n)).set("empty", sj.empty());
       auto at = Value::array(), hat = Value::array(), it = Value::array();
       for (std::size_t i = 0; i < n + 3; ++i) {
@@ -397,7 +402,7 @@ namespace {
 
    std::string first_difference(const Value& e, const Value& g)
    {
-      for (auto f : {"size", "empty", "at", "atmax", "huge", "iter", "riter", "post", "rpost", "eqd", "eqo", "bend", "steps", "hsize", "hat"})
+      for (auto f : {"first", "atrev", "size", "empty", "at", "atmax", "huge", "iter", "riter", "post", "rpost", "eqd", "eqo", "bend", "steps", "hsize", "hat"})
          if (not vj::equal(e.at(f), g.at(f))) return f;
       return "other";
    }
